@@ -198,3 +198,16 @@ var _ = token.ADD
 var _ = types.Typ
 
 func stringType() types.Type { return types.Typ[types.String] }
+
+func structFieldIndex(n *types.Named, field string) int {
+	st, ok := n.Underlying().(*types.Struct)
+	if !ok {
+		return -1
+	}
+	for i := 0; i < st.NumFields(); i++ {
+		if st.Field(i).Name() == field {
+			return i
+		}
+	}
+	return -1
+}
